@@ -144,7 +144,8 @@ package transports
 //@   ensures [C11.oneresponse] calls((*types.HttpContext).Write) + calls(io.WriteString) == 1
 //@   ensures [C10.toolarge413] !overlap && !v4binary && tooLarge ==> arg((*types.HttpContext).SetStatusCode, 1, statusCode) == 413 && calls((*types.HttpContext).Write) == 1 && calls(Transport.OnData) == 0
 //@   ensures [C11.okafter]     calls(io.WriteString) == 1 ==> calls(Transport.OnData) == 1 && before(Transport.OnData, 1, io.WriteString, 1) && arg(io.WriteString, 1, s) == "ok"
-//@   ensures [C11.dataaccept]  !overlap && !v4binary && !tooLarge ==> calls(Transport.OnData) == 1 && calls(io.WriteString) == 1
+//@   ensures [C11.dataaccept]  !overlap && !v4binary && !tooLarge && (calls(io.ReaderFrom.ReadFrom) == 0 || ret(io.ReaderFrom.ReadFrom, 1, 1) == nil) ==> calls(Transport.OnData) == 1 && calls(io.WriteString) == 1
+//@   ensures [C10.readerror413] calls(io.ReaderFrom.ReadFrom) == 1 && ret(io.ReaderFrom.ReadFrom, 1, 1) != nil ==> calls(Transport.OnData) == 0 && arg((*types.HttpContext).SetStatusCode, 1, statusCode) == 413 && calls((*types.HttpContext).Write) == 1
 //@   callsite Transport.OnData#1
 //@     assert [C10.declared] ctx.request.ContentLength <= p.Transport.$maxbuf
 //@     assert [C10.bounded]  ctx.request.Body == nil || ctx.request.ContentLength >= 0 || (calls(http.MaxBytesReader) == 1 && arg(http.MaxBytesReader, 1, n) == p.Transport.$maxbuf && ret(io.ReaderFrom.ReadFrom, 1, 1) == nil)
